@@ -49,6 +49,11 @@ def sql_of(facts, body, flow, local, op=None):
             return strip_generics(c['static']), static_string(facts, strip_generics(c['static']))
         if c and 'str' in c:
             return (strip_generics(c['uneval']) if c.get('uneval') else 'literal@%s' % cs), c['str']
+        if c and c.get('uneval') and c.get('ty') == '&str':
+            # a named `const` statement: the literal its defining body holds
+            txt = static_string(facts, strip_generics(c['uneval']))
+            if txt is not None:
+                return strip_generics(c['uneval']), txt
         return None
     if op is not None:
         r = of_const(op_const(op), body.line)
@@ -368,7 +373,7 @@ def check_B8(ctx, facts, rule='C17.B8', only_compare=False):
     never compare or order by it, and a write statement must be unconditional (storage reports Ok = the row was written)"""
     n = 0
     for b in facts.bodies.values():
-        if b.crate != 'datacake_sqlite' or b.d['promoted'] or b.kind != 'static':
+        if b.crate != 'datacake_sqlite' or b.d['promoted'] or b.kind not in ('static', 'const'):      # (a statement may be a `static` or a named `const`)
             continue
         for _b, _j, s in b.assigns():
             for o in rv_operands(s['rv']):
@@ -395,7 +400,20 @@ def check_B8(ctx, facts, rule='C17.B8', only_compare=False):
                        '%s %s: the text form of a timestamp is not order-preserving (the seconds field is not zero-padded), and a conditional upsert lets '
                        'storage report Ok without having written the row — an acknowledged write is missing after a restart'
                        % (name, 'compares / orders by the TEXT column `ts`' if cmp_ts else 'is a conditional write (DO UPDATE ... WHERE)'))
-    ctx.floor(rule, 'SQLite data statements', n, 6)
+    # floor: every statement a SQL call site of the crate names must have been judged (6 on the pinned tree; a tree that merges two
+    # statements into one has fewer — what matters is that none that is USED escapes)
+    used = set()
+    for body in facts.bodies.values():
+        if body.crate != 'datacake_sqlite' or body.d['promoted']:
+            continue
+        fl_ = None
+        for _b, t in body.calls():
+            if cname(t) in SQL_CALLS:
+                fl_ = fl_ or Flow(body)
+                nm_, tx_ = sql_of(facts, body, fl_, op_local(t['args'][1]), t['args'][1])
+                if tx_ is not None and re.match(r'\s*(SELECT|INSERT|DELETE|UPDATE)', tx_, re.I):
+                    used.add(' '.join(tx_.split()))
+    ctx.floor(rule, 'SQLite data statements', n, len(used) if used else 6)
 
 
 def check_B9(ctx, facts):
